@@ -23,7 +23,8 @@ Viols(e, pre) ==
   (IF "C02" \in Props /\ e.op.op = "Connect" THEN
      (IF e.res = "auth" /\ ~C02Auth(pre, e.op) THEN {<<"C02", "authenticated-without-required-proof">>} ELSE {}) \cup
      (IF e.op.kind = "fetch" /\ SeqToSet(e.obs.kinds) \cap {"auth", "base", "fetchconn", "othertype"} # {} THEN {<<"C02", "fetch-handshake-yielded-connection">>} ELSE {}) \cup
-     (IF e.op.kind = "auth" /\ e.res \in {"base", "fetchconn", "othertype"} THEN {<<"C02", "library-client-returned-as-other-connection">>} ELSE {})
+     (IF e.op.kind = "mixedFA" /\ e.res = "auth" THEN {<<"C02", "fetch-handshake-yielded-connection">>} ELSE {}) \cup
+     (IF e.op.kind \in {"auth", "mixedAF", "mixedFA"} /\ e.res \in {"base", "fetchconn", "othertype"} THEN {<<"C02", "library-client-returned-as-other-connection">>} ELSE {})
    ELSE {}) \cup
   (IF "C02" \in Props /\ e.op.op = "Dial" /\ e.res = "auth" /\ ~(pre.rec[e.op.k] /\ pre.cert[e.op.k] = "fresh")
      THEN {<<"C02", "unregistered-or-stale-node-authenticated">>} ELSE {}) \cup
